@@ -7,27 +7,54 @@ with the real code by `harness/c13.py`; the op is given in brackets)
 | clause of the property                                        | theorems (all shapes, all words, all histories)               | outside the theorems |
 |---------------------------------------------------------------|----------------------------------------------------------------|----------------------|
 | saved to BIL + header and loaded back: identical shape,       | `header_roundtrip`, `header_dtype_table`, `load_file`,         | float text: `IOok`, `NodataPrintable` are hypotheses about  |
-| georeferencing, dtype, no-data value [save, load]             | `load_saveData`, `fromStream_file`, `save_load`                | CPython/numpy (`external_text_statement`), checked directly |
-| … bit-identical cell values, every supported type             | `decode_encode`, `fromfile_encode`, `clipWord_id`,             | on all float16 and random float32/64 words; `tofile`,       |
-| (full range, NaN/inf) [save, load, setdata]                   | `clipData_default`, `setData_id`, `load_file`, `save_load`     | `fromfile`, zipfile, the file system (end-to-end oracle)    |
+| georeferencing, dtype, no-data value [save, load, files]      | `load_saveData`, `fromStream_file`, `save_load`,               | CPython/numpy (`external_text_statement`), checked directly |
+|                                                               | `save_fromHeader_files` (file names: `save(dir/stem.bil)`,     | on all float16 and random float32/64 words; `tofile`,       |
+|                                                               | `from_header` on either file), `save_fromZip_files`,           | `fromfile`, zipfile, the file system (end-to-end oracle)    |
+|                                                               | `save_name_guard_too_weak`                                     |                                                             |
+| … bit-identical cell values, every supported type             | `decode_encode`, `fromfile_encode`, `clipWord_id` (integer AND | the order of two floats is read off the bit patterns (no    |
+| (full range, NaN/inf) [save, load, setdata, run]              | float bounds), `clipWord_word`, `clipData_default`,            | rounding); which zero `np.maximum(-0.0, 0.0)` returns is    |
+|                                                               | `setData_id`, `load_file`, `save_load`,                        | platform dependent (never generated)                        |
+|                                                               | `clipWord_inf_needs_infinite_bounds` (why the default bounds   |                                                             |
+|                                                               | must be infinite)                                              |                                                             |
 | … rasters of either byte order [savebo, load]                 | `fromStream_file` (bo = I, M), `decode_little_encode_big_iff`  | a grid object itself is always native: `M` only on files    |
-| exported to a dictionary and rebuilt: shape, georef, dtype,   | `dtypeOfStr_dtypeStr`, `nodataWord_text`, `dict_roundtrip`     | numpy scalar construction from text (same `NumIO`)          |
-| no-data value [todict, fromdict]                              |                                                                |                                                             |
+| exported to a dictionary and rebuilt: shape, georef, dtype,   | `dtypeOfStr_dtypeStr`, `nodataWord_text`, `dict_roundtrip`,    | numpy scalar construction from text (same `NumIO`)          |
+| no-data value [todict, fromdict, fromdictp]                   | `fromDictP_full`, `fromDictP_defaults`                         |                                                             |
 | cloned: identical, bit-identical cells [clone, cloneas]       | `clone_eq`, `cloneAs_same`                                     | `copy.deepcopy` itself (clone is the identity on the record)|
 | clones are independent of the original [store, storeas,       | `clone_independent`, `cloneAs_independent`,                    | metadata attributes of two Python objects (scalars/strings):|
-| store3]                                                       | `handles_independent` (any number of clones, any history)      | oracle only                                                 |
-| catchment rebuilt from its dictionary: same outlet, inlets    | `catchToDict_ok_iff`, `catchment_dict_roundtrip`               | delineation itself (C06); the flow-direction DATA are not   |
-| (present or None), areas [catch]                              |                                                                | in the dictionary (by design of the code)                   |
-| clipped grid holds exactly the parent's values at coinciding  | `clip_parent_values`, `clip_wellformed`, `clip_of_clip`        | exact arithmetic (ordered field with floor); IEEE rounding   |
-| cell centres, boxes with both corners in the extent [clip]    |                                                                | of corners within an ulp of a cell edge: correspondence at   |
-|                                                               |                                                                | Float + centre oracle                                        |
-| histories: save → edit → save → load; load → edit → to_dict;  | `edits_preserve_gridOK`, `save_load_after_edits`,              | re-assignment of `dtype`, `nrows`, `ncols`, `mindata`,       |
-| attribute re-assignment between exports [edits]               | `dict_after_edits`                                             | `maxdata` (not in the quantifier)                            |
+| store3]                                                       | `handles_independent` (any number of clones, any history,      | oracle only                                                 |
+|                                                               | rejected assignments included: `store_setData_rejected`)       |                                                             |
+| catchment rebuilt from its dictionary: same outlet, inlets    | `catchToDict_ok_iff`, `catchment_dict_roundtrip`,              | delineation itself (C06); the flow-direction DATA are not   |
+| (present or None), areas [catch, crun]                        | `catchment_history`, `delineate_step`                          | in the dictionary (by design of the code)                   |
+| clipped grid holds exactly the parent's values at coinciding  | `clip_parent_values`, `clip_wellformed`, `clip_of_clip`        | exact coincidence of the cell CENTRES and which cell a      |
+| cell centres, boxes with both corners in the extent [clip]    | (exact arithmetic); `clip_block_any_arithmetic` (ANY           | corner within an ulp of an edge falls in: exact arithmetic   |
+|                                                               | arithmetic, IEEE included: the clip IS a block of the parent,  | only (correspondence at Float + centre oracle)               |
+|                                                               | bit-identical), `clip_succeeds_monotone` (monotone rounding),  |                                                             |
+|                                                               | `floor_offset_monotone`                                        |                                                             |
+| histories: save → edit → save → load; load → edit → to_dict;  | `edits_preserve_gridOK`, `save_load_after_edits`,              | re-assignment of `dtype`, `nrows`, `ncols` (not in the      |
+| attribute re-assignment between exports; ANY sequence of      | `dict_after_edits`; state machine over `List Op`:              | quantifier)                                                  |
+| public mutators, accepted or REJECTED [edits, run, getitem]   | `stateOK_of_default`, `mutators_keep_invariant`,               |                                                             |
+|                                                               | `rejected_call_leaves_state`, `data_assignment_cases`,         |                                                             |
+|                                                               | `save_load_after_history`, `dict_after_history`, `opWF_int`,   |                                                             |
+|                                                               | `item_write_then_read`; closure under the constructors:        |                                                             |
+|                                                               | `loaded_grid_is_grid`, `clipped_grid_is_grid`,                 |                                                             |
+|                                                               | `history_from_files`, `history_from_clip`                      |                                                             |
 | (diagnostic) the pinned code's float64 detour                 | `roundF64_small` + example                                     |                                                             |
+
+Hypotheses the property text does not state, and where they come from: `IOok` / `NodataPrintable` / `OpWF` for float values
+(external: numpy's printer, reader and scalar constructors; discharged for the integer types: `external_text_partial`,
+`opWF_int`); `AboveLo` / `BelowHi` of `clipWord_id` (needed: `clipWord_inf_needs_infinite_bounds`; discharged for the default
+bounds: `clipData_default`); `stem ≠ []` and the dot of `.bil` in `save_fromHeader_files` (needed: `save_name_guard_too_weak`);
+`x0 ≤ x1`, `y0 ≤ y1`, `0 < csz` of the clip theorems (corners in the wrong order give an error or an empty grid: probed by the
+harness, `clip/swapped_corners`); `StateOK` (established by every constructor: `stateOK_of_default` with `header_roundtrip`,
+`dict_roundtrip`, `clip_block_any_arithmetic`, and kept by every mutator).
 -/
 import HydroVerif.Lemmas.C13Header
 import HydroVerif.Lemmas.C13Clip
 import HydroVerif.Lemmas.C13Examples
+import HydroVerif.Lemmas.C13Machine
+import HydroVerif.Lemmas.C13Files
+import HydroVerif.Lemmas.C13ClipAny
+import HydroVerif.Lemmas.C13Closure
 
 namespace HydroVerif.C13
 
@@ -89,34 +116,34 @@ theorem fromfile_encode (bo : ByteOrder) (t : DType) (ht : 0 < t.bytes) (ws : Li
 
 /-! ## 3. the data path is the identity -/
 
-/-- `_clipdata` followed by `astype` leaves every value inside `[mindata, maxdata]` bit-identical; an
-infinite bound (`none`) constrains nothing -/
+/-- `_clipdata` followed by `astype` leaves every value inside `[mindata, maxdata]` bit-identical, for the integer
+AND the float types: an infinite bound (`none`, or a float bound set to `±inf` / NaN) constrains nothing, a NaN value
+passes, and the order is the integer order resp. the order of float values read off the bit patterns
+(`AboveLo`, `BelowHi`) -/
 theorem clipWord_id (t : DType) (lo hi : Option Int) (w : Nat) (hw : w < wordBound t)
-    (hlo : ∀ l, lo = some l → l ≤ toInt t w) (hhi : ∀ h, hi = some h → toInt t w ≤ h) :
-    clipWord t lo hi w = w := by
-  unfold clipWord
-  cases hk : t.kind <;> simp only
-  all_goals
-    cases lo with
-    | none =>
-      cases hi with
-      | none => simp
-      | some h =>
-        have := hhi h rfl
-        simp only [Option.isNone_none, Option.isNone_some, Bool.and_false, Bool.false_eq_true, if_false]
-        rw [if_neg (by omega)]
-        exact ofInt_toInt t w hw
-    | some l =>
-      have h1 := hlo l rfl
-      simp only [Option.isNone_some, Bool.false_and, Bool.false_eq_true, if_false]
-      rw [if_neg (by omega)]
-      cases hi with
-      | none => exact ofInt_toInt t w hw
-      | some h =>
-        have := hhi h rfl
-        simp only
-        rw [if_neg (by omega)]
-        exact ofInt_toInt t w hw
+    (hlo : ∀ l, lo = some l → AboveLo t l w) (hhi : ∀ h, hi = some h → BelowHi t h w) :
+    clipWord t lo hi w = w :=
+  clipWord_id' t lo hi w hw hlo hhi
+
+/-- whatever the bounds, `_clipdata` returns a word of the grid's dtype (for the float types a bound is a bit pattern
+of the dtype: `BoundsOK`, kept by the `mindata / maxdata` setters, see `mutators_keep_invariant`) -/
+theorem clipWord_word (t : DType) (lo hi : Option Int) (w : Nat) (hw : w < wordBound t) (hb : BoundsOK t lo hi) :
+    clipWord t lo hi w < wordBound t :=
+  clipWord_lt t lo hi w hw hb
+
+/-- **the default bounds must be infinite** (the hypotheses `AboveLo / BelowHi` of `clipWord_id` cannot be dropped):
+with the finite limits of the type as bounds (`np.finfo(t).min / max`) `_clipdata` turns `+inf` into the largest and
+`-inf` into the lowest finite value — for float16, float32 and float64 — while every NaN and every finite value pass -/
+theorem clipWord_inf_needs_infinite_bounds :
+    clipWord ⟨.float, 2⟩ (some 0xfbff) (some 0x7bff) 0x7c00 = 0x7bff ∧
+    clipWord ⟨.float, 2⟩ (some 0xfbff) (some 0x7bff) 0xfc00 = 0xfbff ∧
+    clipWord ⟨.float, 4⟩ (some 0xff7fffff) (some 0x7f7fffff) 0x7f800000 = 0x7f7fffff ∧
+    clipWord ⟨.float, 4⟩ (some 0xff7fffff) (some 0x7f7fffff) 0xff800000 = 0xff7fffff ∧
+    clipWord ⟨.float, 8⟩ (some 0xffefffffffffffff) (some 0x7fefffffffffffff) 0x7ff0000000000000 = 0x7fefffffffffffff ∧
+    clipWord ⟨.float, 8⟩ (some 0xffefffffffffffff) (some 0x7fefffffffffffff) 0xfff0000000000000 = 0xffefffffffffffff ∧
+    clipWord ⟨.float, 4⟩ (some 0xff7fffff) (some 0x7f7fffff) 0x7fc00123 = 0x7fc00123 ∧
+    clipWord ⟨.float, 4⟩ none none 0x7f800000 = 0x7f800000 := by
+  decide
 
 /-- with the default bounds the whole array goes through unchanged, whatever the values (NaN, inf, 2^63-1 …) -/
 theorem clipData_default (t : DType) (rows : List (List Nat)) : clipData t none none rows = rows :=
@@ -211,12 +238,12 @@ theorem header_roundtrip {ν : Type} (io : NumIO ν) (hio : IOok io) (bo : ByteO
     split
     · decide
     · exact oneLine_noNL _
-  have hparent : ∀ a v, lookup g.parent a = some v → NoNL (v.str io) := by
-    intro a v hl
+  have hparent : ∀ a ∈ parentAttrs, ∀ v, lookup g.parent a = some v → NoNL (v.str io) := by
+    intro a ha v hl
     cases v with
     | int n => exact nlI n
     | num x => exact nlF x
-    | text t => exact hg.parent_text a t hl
+    | text t => exact hg.parent_text a ha t hl
   -- line by line
   have e1 := parseLine_int io (Config.init io d) 14 "NROWS".toList g.nrows (by decide) (by decide) (by decide)
   rw [readlines_fmtLine 14 _ _ _ (by decide) (nlI _), parseLines_step io _ _ _ _ e1]
@@ -258,7 +285,7 @@ theorem header_roundtrip {ν : Type} (io : NumIO ν) (hio : IOok io) (bo : ByteO
   rw [readlines_fmtLine 14 _ _ _ (by decide) hcomment, parseLines_step io _ _ _ _ e11]
   generalize hc11 : (c10.setText (lower "COMMENT".toList) (lower (strip (joinSp (splitRunsAux true
     ((if oneLine g.comment = [] then "No comment".toList else oneLine g.comment) ++ ['\n'])))))) = c11
-  obtain ⟨p, hp⟩ := parseLines_parentBlock io g.parent hparent parentAttrs parentAttrs_ok c11
+  obtain ⟨p, hp⟩ := parseLines_parentBlock io g.parent parentAttrs hparent parentAttrs_ok c11
   suffices h : ∃ hi, finishConfig io { c11 with parent := p } = .ok hi ∧
       hi.byteorder = bo ∧ hi.grid.nrows = g.nrows ∧ hi.grid.ncols = g.ncols ∧
       hi.grid.xll = g.xll ∧ hi.grid.yll = g.yll ∧ hi.grid.csz = g.csz ∧ hi.grid.dtype = g.dtype ∧
@@ -510,6 +537,278 @@ theorem handles_independent (ops : List SOp) (s : Store) (a b : Handle) (ha : a.
     (hne : a.arr ≠ b.arr) : (applyAll s b ops).1.read a = s.read a :=
   applyAll_other ops s a b ha hb hne
 
+/-! ## 6c. the grid object as a state machine: every public mutator, accepted or rejected -/
+
+/-- a grid fresh from the constructor, a header or a dictionary (default bounds) is in the invariant -/
+theorem stateOK_of_default {ν : Type} (io : NumIO ν) (g : Grid ν) (hg : GridOK io g) (hb : g.lo = none ∧ g.hi = none) :
+    StateOK io g :=
+  ⟨hg, by
+    rw [hb.1, hb.2]
+    intro _
+    exact ⟨fun _ h => by simp at h, fun _ h => by simp at h⟩⟩
+
+/-- **every public mutator keeps the grid inside the property's domain**, for ANY history of calls — item writes with
+any python index, fills and no-data / mindata / maxdata assignments with any value offered, data assignments with an array
+of ANY shape, `load` on ANY bytes in either byte order — accepted or rejected (`run` carries on after a rejected call as
+a caller that caught the exception does). Shape, dtype and parent attributes never change. -/
+theorem mutators_keep_invariant {ν : Type} (io : NumIO ν) (g : Grid ν) (hg : StateOK io g) (ops : List (Op ν))
+    (hops : ∀ op ∈ ops, OpWF io g.dtype op) :
+    StateOK io (run io g ops).1 ∧ SameShape g (run io g ops).1 ∧ (run io g ops).2.length = ops.length :=
+  ⟨(run_ok io ops g hg hops).1, (run_ok io ops g hg hops).2, run_flags_length io ops g⟩
+
+/-- **a rejected call leaves the object as it was** (fault paths): whenever `step` reports an error the state is the
+state before the call — the only exception being the `mindata / maxdata` setters of the code, which have already stored
+the new bound (nothing else) when they raise for `mindata > maxdata` -/
+theorem rejected_call_leaves_state {ν : Type} (io : NumIO ν) (g : Grid ν) (op : Op ν) (e : Err)
+    (h : (step io g op).2 = some e) :
+    (step io g op).1 = g ∨
+    (e = .badBounds ∧ ∃ b, (step io g op).1 = { g with lo := some b } ∨ (step io g op).1 = { g with hi := some b }) :=
+  step_rejected io g op e h
+
+/-- the data setter: an array whose shape is not the grid's is rejected and NOTHING is stored; an array of the grid's
+shape is stored clipped (`_clipdata`), everything else untouched -/
+theorem data_assignment_cases {ν : Type} (io : NumIO ν) (g : Grid ν) (hg : StateOK io g) (rows : List (List Nat))
+    (hw : ∀ r ∈ rows, ∀ w ∈ r, w < wordBound g.dtype) :
+    (((rows.length : Int) ≠ g.nrows ∨ ∃ r ∈ rows, (r.length : Int) ≠ g.ncols) ∧
+      step io g (.edit (.data rows)) = (g, some .wrongCount)) ∨
+    (((rows.length : Int) = g.nrows ∧ ∀ r ∈ rows, (r.length : Int) = g.ncols) ∧
+      step io g (.edit (.data rows)) = ({ g with data := clipData g.dtype g.lo g.hi rows }, none)) := by
+  rcases setData_cases io g hg rows hw with ⟨h, hs⟩ | ⟨g', h, _, _, _, _, _, _, hr, hc⟩
+  · left; exact ⟨hs, by simp only [step, applyEdit, h]⟩
+  · right
+    refine ⟨⟨hr, hc⟩, ?_⟩
+    have h' := h
+    unfold setData at h'
+    split at h'
+    · cases h'
+    · cases h'
+      simp only [step, applyEdit, h]
+
+/-- **save → ANY history (rejected calls included) → save again → load**: the files written load back to the CURRENT
+state: shape, georeferencing, dtype, current no-data value, current cell words -/
+theorem save_load_after_history {ν : Type} (io : NumIO ν) (hio : IOok io) (g : Grid ν) (hg : StateOK io g)
+    (ops : List (Op ν)) (hops : ∀ op ∈ ops, OpWF io g.dtype op) (d : Str) :
+    ∃ h bytes, save io (run io g ops).1 = .ok (h, bytes) ∧ ∃ g2, fromStream io d h (some bytes) = .ok g2 ∧
+      g2.nrows = (run io g ops).1.nrows ∧ g2.ncols = (run io g ops).1.ncols ∧ g2.xll = (run io g ops).1.xll ∧
+      g2.yll = (run io g ops).1.yll ∧ g2.csz = (run io g ops).1.csz ∧ g2.dtype = (run io g ops).1.dtype ∧
+      g2.nodata = (run io g ops).1.nodata ∧ g2.data = (run io g ops).1.data ∧
+      g2.nrows = g.nrows ∧ g2.ncols = g.ncols ∧ g2.dtype = g.dtype := by
+  obtain ⟨h1, h2, _⟩ := mutators_keep_invariant io g hg ops hops
+  obtain ⟨h, bytes, hs, g2, hl, a1, a2, a3, a4, a5, a6, a7, a8⟩ := save_load io hio _ h1.grid d
+  exact ⟨h, bytes, hs, g2, hl, a1, a2, a3, a4, a5, a6, a7, a8, a1.trans h2.2.1, a2.trans h2.2.2.1, a6.trans h2.1⟩
+
+/-- **ANY history → to_dict → from_dict** rebuilds the CURRENT metadata -/
+theorem dict_after_history {ν : Type} (io : NumIO ν) (g : Grid ν) (hg : StateOK io g)
+    (ops : List (Op ν)) (hops : ∀ op ∈ ops, OpWF io g.dtype op) :
+    ∃ g2, fromDict io (toDict io (run io g ops).1) = .ok g2 ∧ g2.name = (run io g ops).1.name ∧
+      g2.comment = (run io g ops).1.comment ∧ g2.nrows = g.nrows ∧ g2.ncols = g.ncols ∧
+      g2.xll = (run io g ops).1.xll ∧ g2.yll = (run io g ops).1.yll ∧ g2.csz = (run io g ops).1.csz ∧
+      g2.dtype = g.dtype ∧ g2.nodata = (run io g ops).1.nodata := by
+  obtain ⟨h1, h2, _⟩ := mutators_keep_invariant io g hg ops hops
+  obtain ⟨g2, e, a1, a2, a3, a4, a5, a6, a7, a8, a9, _⟩ :=
+    dict_roundtrip io _ h1.grid.header.supported h1.grid.header.nodata_lt h1.grid.header.nodata_printable
+      h1.grid.header.nrows_nonneg h1.grid.header.ncols_nonneg
+  exact ⟨g2, e, a1, a2, a3.trans h2.2.1, a4.trans h2.2.2.1, a5, a6, a7, a8.trans h2.1, a9⟩
+
+/-- `grid[idx] = w` then `grid[idx]`, `grid[k]`: an accepted item write (any python index, negative ones counted from the
+end) is read back at that index, every other cell reads as before, and a rejected one (`IndexError`) is rejected by
+the reader too -/
+theorem item_write_then_read {ν : Type} (io : NumIO ν) (g : Grid ν) (idx : Int) (w : Nat) :
+    ((step io g (.itemAt idx w)).2 = none → getItem (step io g (.itemAt idx w)).1 idx = .ok w ∧
+      ∀ k i j, flatIndex g.data.flatten.length idx = some i → flatIndex g.data.flatten.length k = some j → j ≠ i →
+        getItem (step io g (.itemAt idx w)).1 k = getItem g k) ∧
+    ((step io g (.itemAt idx w)).2 ≠ none → getItem g idx = .error .badIndex) := by
+  simp only [step]
+  cases hfi : flatIndex g.data.flatten.length idx with
+  | none =>
+    refine ⟨fun h => by simp at h, fun _ => ?_⟩
+    simp only [getItem, hfi]
+  | some i =>
+    have hi := flatIndex_lt hfi
+    refine ⟨fun _ => ⟨?_, ?_⟩, fun h => by simp at h⟩
+    · simp only [getItem, setFlat_flatten, List.length_set, hfi, List.getElem?_set_self hi]
+    · intro k i' j hi' hj hne
+      cases hi'
+      simp only [getItem, setFlat_flatten, List.length_set, hj, List.getElem?_set_ne (Ne.symm hne)]
+
+/-- for the integer types, a python int or a text offered to `dtype(value)` needs no external fact: when it is accepted
+the word is a word of the dtype that prints and reads back (the `OpWF` hypothesis of the history theorems is discharged) -/
+theorem opWF_int {ν : Type} (io : NumIO ν) (t : DType) (hk : t.kind ≠ .float) (v : NVal ν)
+    (hv : (∃ n, v = .int n) ∨ (∃ s, v = .text s)) :
+    OpWF io t (.nodataVal v) ∧ OpWF io t (.fillVal v) ∧ OpWF io t (.mindata v) ∧ OpWF io t (.maxdata v) :=
+  ⟨fun w h => nodataWord_int_ok io t hk v hv w h, fun w h => (nodataWord_int_ok io t hk v hv w h).1,
+   fun w h => (nodataWord_int_ok io t hk v hv w h).1, fun w h => (nodataWord_int_ok io t hk v hv w h).1⟩
+
+/-- clone independence with rejected calls: a data assignment of the wrong shape through one handle rebinds nothing
+(store and handle unchanged); `clone_independent`, `cloneAs_independent`, `handles_independent` hold for histories
+that contain such calls -/
+theorem store_setData_rejected (s : Store) (h : Handle) (rows : List (List Nat))
+    (hs : rows.map List.length ≠ (s.read h).map List.length) : (SOp.setData rows).apply s h = (s, h) := by
+  simp only [SOp.apply, if_neg hs]
+
+/-- `from_dict` on the dictionary `to_dict` returns (every optional key present) is `fromDict`; each missing optional
+key falls back on the default of `Grid.__init__`, a missing `name` / `ncols` is a `KeyError` -/
+theorem fromDictP_full {ν : Type} (io : NumIO ν) (d : GridDict ν) : fromDictP io d.full = fromDict io d := by
+  unfold fromDictP fromDict GridDict.full
+  simp only [Option.getD_some]
+  cases dtypeOfStr d.dtype with
+  | none => rfl
+  | some p => rfl
+
+theorem fromDictP_defaults {ν : Type} (io : NumIO ν) (name : Str) (ncols : Int) :
+    fromDictP io { name := some name, ncols := some ncols, nrows := none, csz := none, xll := none, yll := none,
+                   dtype := none, nodata := none, comment := none } =
+      mkGrid io name ncols ncols (io.ofInt 1) (io.ofInt 0) (io.ofInt 0) ⟨.float, 8⟩ (.int 0) [] ∧
+    (∀ d : GridDictP ν, d.name = none ∨ d.ncols = none → fromDictP io d = .error .missingKey) := by
+  refine ⟨rfl, ?_⟩
+  intro d hd
+  unfold fromDictP
+  rcases hd with h | h
+  · rw [h]
+  · rw [h]; cases d.name <;> rfl
+
+/-! ### catchments: any history of delineations, failed ones included -/
+
+/-- after ANY sequence of `delineate_area` calls (a failed call resets the areas and keeps the new outlet and inlets; a call
+without inlets resets the inlets): the flow-direction grid is untouched, `to_dict` succeeds exactly when the
+LAST call succeeded (or nothing failed since an initial delineation), and the catchment rebuilt from the dictionary has
+the CURRENT outlet, inlets, area and filled area -/
+theorem catchment_history {ν : Type} (io : NumIO ν) (ops : List COp) : ∀ (c : Catchment ν),
+    c.area.isSome = c.filled.isSome → c.flowdir.dtype = int64 → c.flowdir.nodata < wordBound int64 →
+    0 ≤ c.flowdir.nrows → 0 ≤ c.flowdir.ncols →
+    (crun c ops).flowdir = c.flowdir ∧ (crun c ops).area.isSome = (crun c ops).filled.isSome ∧
+    ((crun c ops).area = none → catchToDict io (crun c ops) = .error .notDelineated) ∧
+    (∀ a, (crun c ops).area = some a → ∃ d c', catchToDict io (crun c ops) = .ok d ∧ catchFromDict io d = .ok c' ∧
+      c'.name = (crun c ops).name ∧ c'.outlet = (crun c ops).outlet ∧ c'.inlets = (crun c ops).inlets ∧
+      c'.area = (crun c ops).area ∧ c'.filled = (crun c ops).filled ∧ c'.flowdir.nrows = c.flowdir.nrows ∧
+      c'.flowdir.ncols = c.flowdir.ncols ∧ c'.flowdir.dtype = c.flowdir.dtype ∧ c'.flowdir.nodata = c.flowdir.nodata) := by
+  induction ops with
+  | nil =>
+    intro c hinv hs hw hr hc
+    refine ⟨rfl, hinv, ?_, ?_⟩
+    · intro ha
+      have ha' : c.area = none := ha
+      simp only [crun, catchToDict, ha']
+    · intro a ha
+      have ha : c.area = some a := ha
+      have hf : ∃ f, c.filled = some f := by
+        cases hfl : c.filled with
+        | none => rw [ha, hfl] at hinv; cases hinv
+        | some f => exact ⟨f, rfl⟩
+      obtain ⟨f, hf⟩ := hf
+      obtain ⟨d, c', h1, h2, b1, b2, b3, b4, b5, b6, b7, _, _, _, b11, b12⟩ :=
+        catchment_dict_roundtrip io c a f ha hf hs hw hr hc
+      exact ⟨d, c', h1, h2, b1, b2, b3, b4, b5, b6, b7, b11, b12⟩
+  | cons op ops ih =>
+    intro c hinv hs hw hr hc
+    cases op with
+    | delineate o inl res =>
+      have hfd : (cstep c (.delineate o inl res)).1.flowdir = c.flowdir := by
+        cases res with
+        | none => rfl
+        | some p => rfl
+      have hinv' : (cstep c (.delineate o inl res)).1.area.isSome = (cstep c (.delineate o inl res)).1.filled.isSome := by
+        cases res with
+        | none => rfl
+        | some p => rfl
+      have := ih (cstep c (.delineate o inl res)).1 hinv' (by rw [hfd]; exact hs) (by rw [hfd]; exact hw)
+        (by rw [hfd]; exact hr) (by rw [hfd]; exact hc)
+      simp only [crun]
+      rw [hfd] at this
+      exact this
+
+/-- what one `delineate_area` call does to the observables of the dictionary -/
+theorem delineate_step {ν : Type} (c : Catchment ν) (o : Int) (inl : Option (List Int)) :
+    (∀ a f, (cstep c (.delineate o inl (some (a, f)))).1.outlet = some o ∧
+      (cstep c (.delineate o inl (some (a, f)))).1.area = some a ∧ (cstep c (.delineate o inl (some (a, f)))).1.filled = some f ∧
+      (cstep c (.delineate o inl (some (a, f)))).1.inlets = inl) ∧
+    ((cstep c (.delineate o inl none)).1.area = none ∧ (cstep c (.delineate o inl none)).1.filled = none ∧
+      (cstep c (.delineate o inl none)).1.outlet = some o ∧ (cstep c (.delineate o inl none)).2 = some .delineationFailed) :=
+  ⟨fun _ _ => ⟨rfl, rfl, rfl, rfl⟩, rfl, rfl, rfl, rfl⟩
+
+/-! ## 6d. file names: `save(dir/stem.bil)` then `from_header` on either file -/
+
+/-- **save to files, load with `from_header`**: for ANY non-empty stem (dots and blanks allowed) `save(dir/stem.bil)`
+is accepted, writes `dir/stem.hdr` and `dir/stem.bil` into the file system (whatever it held), and
+`from_header(dir/stem.bil)` as well as `from_header(dir/stem.hdr)` find both files and load identical shape,
+georeferencing, dtype, no-data value and bit-identical cells -/
+theorem save_fromHeader_files {ν : Type} (io : NumIO ν) (hio : IOok io) (fs : FS) (dir stem : Str) (hs : stem ≠ [])
+    (g : Grid ν) (hg : GridOK io g) :
+    ∃ fs', saveFS io fs dir (stem ++ ".bil".toList) g = .ok fs' ∧
+      ∀ name, (name = stem ++ ".bil".toList ∨ name = stem ++ ".hdr".toList) →
+        ∃ g', fromHeaderFS io fs' dir name = .ok g' ∧
+          g'.nrows = g.nrows ∧ g'.ncols = g.ncols ∧ g'.xll = g.xll ∧ g'.yll = g.yll ∧ g'.csz = g.csz ∧
+          g'.dtype = g.dtype ∧ g'.nodata = g.nodata ∧ g'.data = g.data := by
+  obtain ⟨h, bytes, hsave, g', hl, rest⟩ := save_load io hio g hg (splitextRoot (stem ++ ".hdr".toList))
+  refine ⟨_, by simp only [saveFS, endsWith_bil, hsave, Bool.not_true, Bool.false_eq_true, if_false]; rfl, ?_⟩
+  intro name hname
+  have hstem : stemOf name = stem := by
+    rcases hname with rfl | rfl
+    · exact stemOf_bil stem hs
+    · exact stemOf_hdr stem hs
+  have hne : stem ++ ".hdr".toList ≠ stem ++ ".bil".toList := by
+    intro he; have := List.append_cancel_left he; revert this; decide
+  refine ⟨g', ?_, rest⟩
+  unfold fromHeaderFS
+  simp only [hstem, take_bil]
+  rw [lookup_dictSet_other _ _ _ _ (pathJoin_ne dir _ _ hne), lookup_dictSet_self, lookup_dictSet_self]
+  exact hl
+
+/-- **save to files, zip them, load with `from_zip`**: the member names come from `os.path.splitext`, which does not
+split a name made of dots only — for every stem holding a character that is not a dot, `from_zip(archive, dir/stem.bil)`
+and `from_zip(archive, dir/stem.hdr)` on the archive of the saved files load the identical grid; for the stem `.`
+(`..bil`) the header member is not found (`KeyError`) although `from_header` finds the file -/
+theorem save_fromZip_files {ν : Type} (io : NumIO ν) (hio : IOok io) (fs : FS) (dir stem : Str)
+    (hs : stem.all (fun c => c == '.') = false) (g : Grid ν) (hg : GridOK io g) :
+    ∃ fs', saveFS io fs dir (stem ++ ".bil".toList) g = .ok fs' ∧
+      ∀ name, (name = stem ++ ".bil".toList ∨ name = stem ++ ".hdr".toList) →
+        ∃ g', fromZipFS io fs' dir name = .ok g' ∧
+          g'.nrows = g.nrows ∧ g'.ncols = g.ncols ∧ g'.xll = g.xll ∧ g'.yll = g.yll ∧ g'.csz = g.csz ∧
+          g'.dtype = g.dtype ∧ g'.nodata = g.nodata ∧ g'.data = g.data := by
+  obtain ⟨h, bytes, hsave, g', hl, rest⟩ := save_load io hio g hg "no_name".toList
+  refine ⟨_, by simp only [saveFS, endsWith_bil, hsave, Bool.not_true, Bool.false_eq_true, if_false]; rfl, ?_⟩
+  intro name hname
+  have hroot : splitextRoot name = stem := by
+    rcases hname with rfl | rfl
+    · exact splitextRoot_bil stem hs
+    · exact splitextRoot_hdr stem hs
+  have hne : stem ++ ".hdr".toList ≠ stem ++ ".bil".toList := by
+    intro he; have := List.append_cancel_left he; revert this; decide
+  refine ⟨g', ?_, rest⟩
+  unfold fromZipFS
+  simp only [hroot, take_bil]
+  rw [lookup_dictSet_other _ _ _ _ (pathJoin_ne dir _ _ hne), lookup_dictSet_self, lookup_dictSet_self]
+  exact hl
+
+/-- … and the stem `.` is the counterexample: saved, found by `from_header`'s naming, not by `from_zip`'s -/
+example : stemOf "..bil".toList = ".".toList ∧ splitextRoot "..bil".toList = "..bil".toList ∧
+    ("..".toList).all (fun c => c == '.') = true ∧ ("a.".toList).all (fun c => c == '.') = false := by decide
+
+/-- **the `endswith("bil")` guard of `save` is weaker than what `from_header` can find** (the hypothesis "`stem.bil`
+with a non-empty stem" of `save_fromHeader_files` cannot be dropped): whenever the header name `save` derives
+(last three characters replaced) is not the one `from_header` derives (`Path.stem + ".hdr"`), `save` succeeds and
+`from_header` on the saved name reports a missing file — e.g. `xbil`, `.bil`, `a.Tbil`, `bil` -/
+theorem save_name_guard_too_weak {ν : Type} (io : NumIO ν) (g : Grid ν) (h : Str) (bytes : List UInt8)
+    (hsave : save io g = .ok (h, bytes)) (dir name : Str) (he : endsWith name "bil".toList = true)
+    (hn : stemOf name ++ ".hdr".toList ≠ name.take (name.length - 3) ++ "hdr".toList)
+    (hn2 : stemOf name ++ ".hdr".toList ≠ name) :
+    ∃ fs', saveFS io [] dir name g = .ok fs' ∧ fromHeaderFS io fs' dir name = .error .missingFile := by
+  refine ⟨_, by simp only [saveFS, he, hsave, Bool.not_true, Bool.false_eq_true, if_false]; rfl, ?_⟩
+  unfold fromHeaderFS
+  dsimp only
+  rw [lookup_dictSet_other _ _ _ _ (pathJoin_ne dir _ _ hn2), lookup_dictSet_other _ _ _ _ (pathJoin_ne dir _ _ hn)]
+  rfl
+
+/-- the names of the docstring meet the hypotheses of `save_name_guard_too_weak`; `g.bil`, `a.b.bil`, `a..bil` do not -/
+example : ∀ name ∈ ["xbil".toList, ".bil".toList, "a.Tbil".toList, "bil".toList],
+    endsWith name "bil".toList = true ∧ stemOf name ++ ".hdr".toList ≠ name.take (name.length - 3) ++ "hdr".toList ∧
+    stemOf name ++ ".hdr".toList ≠ name := by decide
+example : ∀ name ∈ ["g.bil".toList, "a.b.bil".toList, "a..bil".toList, "My Grid.bil".toList],
+    endsWith name "bil".toList = true ∧ stemOf name ++ ".hdr".toList = name.take (name.length - 3) ++ "hdr".toList := by decide
+example : endsWith "g.txt".toList "bil".toList = false ∧ endsWith "g.BIL".toList "bil".toList = false ∧
+    splitextRoot "a.b.hdr".toList = "a.b".toList ∧ splitextRoot ".hdr".toList = ".hdr".toList ∧
+    stemOf "a.".toList = "a.".toList ∧ stemOf ".bil".toList = ".bil".toList := by decide
+
 /-! ## 7. clip -/
 
 section ClipThm
@@ -634,6 +933,114 @@ theorem clip_of_clip (io : NumIO α) (g : Grid α) (hcsz : 0 < g.csz) (hnc : 0 <
 
 end ClipThm
 
+/-! ## 7b. clip in ANY arithmetic (true of IEEE doubles with rounding, not only of exact numbers) -/
+
+section ClipAny
+open HydroVerif.C07
+variable {α : Type} [Add α] [Sub α] [Mul α] [Div α] [OfNat α 1] [C07.Trunc α]
+
+/-- **whatever the arithmetic does to the corners** (no field axiom is used: `+ - * /`, the casts and `floor` are
+arbitrary functions — IEEE doubles with rounding, NaN and overflow included): whenever `clip` returns a grid, both
+corner cells were valid, the grid keeps dtype, no-data value and cell size, has the default bounds, is the block of the
+parent array that starts at row `top` (row of the upper-right corner's cell) and column `left` (column of the
+lower-left corner's cell), lies inside the parent, and every one of its cells holds the parent's word at
+`(top+i, left+j)` — bit-identical. What exact arithmetic adds (`clip_parent_values`) is only WHICH cells the corners
+fall in and that the cell centres coincide exactly. -/
+theorem clip_block_any_arithmetic (io : NumIO α) (g : Grid α) (hnc : 0 < g.ncols)
+    (hr : (g.data.length : Int) = g.nrows) (hc : ∀ r ∈ g.data, (r.length : Int) = g.ncols)
+    (x0 y0 x1 y1 : α) (ng : Grid α) (h : clip io g x0 y0 x1 y1 = .ok ng) :
+    ∃ c0 c1 top left, c0 = coord2cell (geom g) x0 y0 ∧ c1 = coord2cell (geom g) x1 y1 ∧
+      top = rowOf g.ncols c1 ∧ left = colOf g.ncols c0 ∧
+      validCell g.nrows g.ncols c0 = true ∧ validCell g.nrows g.ncols c1 = true ∧
+      ng.dtype = g.dtype ∧ ng.nodata = g.nodata ∧ ng.csz = g.csz ∧ ng.lo = none ∧ ng.hi = none ∧
+      ng.nrows = rowOf g.ncols c0 - top + 1 ∧ ng.ncols = colOf g.ncols c1 - left + 1 ∧
+      0 ≤ ng.nrows ∧ 0 ≤ ng.ncols ∧ 0 ≤ top ∧ top + ng.nrows ≤ g.nrows ∧ 0 ≤ left ∧ left + ng.ncols ≤ g.ncols ∧
+      (ng.data.length : Int) = ng.nrows ∧ (∀ r ∈ ng.data, (r.length : Int) = ng.ncols) ∧
+      ∀ i j : Nat, (i : Int) < ng.nrows → (j : Int) < ng.ncols →
+        ∃ v, (ng.data[i]?.bind (·[j]?)) = some v ∧ (g.data[top.toNat + i]?.bind (·[left.toNat + j]?)) = some v := by
+  obtain ⟨c0, c1, top, left, a1, a2, a3, a4, a5, a6, a7, a8, a9, a10, a11, a12, a13, a14, a15, a16, a17, a18, a19, a20, a21,
+    a22, _⟩ := clip_ok_block io g hnc hr hc x0 y0 x1 y1 ng h
+  exact ⟨c0, c1, top, left, a1, a2, a3, a4, a5, a6, a7, a8, a9, a10, a11, a12, a13, a14, a15, a16, a17, a18, a19, a20, a21, a22⟩
+
+/-- **monotone rounding is enough for a non-empty window**: in any arithmetic in which `x ↦ (long long) floor((x - o) / csz)`
+is monotone (true of IEEE doubles for a positive cell size: subtraction of a constant, division by a positive constant,
+`floor` and the cast are monotone; true of every ordered field, `floor_offset_monotone`), a box whose corners are in order
+and fall in valid cells is clipped successfully to a grid with at least one row and one column -/
+theorem clip_succeeds_monotone [LE α] (io : NumIO α) (g : Grid α) (hnc : 0 < g.ncols)
+    (hr : (g.data.length : Int) = g.nrows) (hc : ∀ r ∈ g.data, (r.length : Int) = g.ncols)
+    (hmono : ∀ a b o : α, a ≤ b → Trunc.floorToInt ((a - o) / g.csz) ≤ Trunc.floorToInt ((b - o) / g.csz))
+    (x0 y0 x1 y1 : α) (hx : x0 ≤ x1) (hy : y0 ≤ y1)
+    (v0 : validCell g.nrows g.ncols (coord2cell (geom g) x0 y0) = true)
+    (v1 : validCell g.nrows g.ncols (coord2cell (geom g) x1 y1) = true) :
+    ∃ ng, clip io g x0 y0 x1 y1 = .ok ng ∧ 0 < ng.nrows ∧ 0 < ng.ncols := by
+  obtain ⟨c0, r0⟩ := coord2cell_valid_rowcol (geom g) x0 y0 v0
+  obtain ⟨c1, r1⟩ := coord2cell_valid_rowcol (geom g) x1 y1 v1
+  have hcx := hmono x0 x1 g.xll hx
+  have hcy := hmono y0 y1 g.yll hy
+  refine clip_ok_of_cells io g hnc hr hc x0 y0 x1 y1 v0 v1 ?_ ?_
+  · show colOf (geom g).ncols _ ≤ colOf (geom g).ncols _
+    rw [c0, c1]; exact hcx
+  · show rowOf (geom g).ncols _ ≤ rowOf (geom g).ncols _
+    rw [r0, r1]
+    show (geom g).nrows - 1 - Trunc.floorToInt ((y1 - g.yll) / g.csz) ≤ (geom g).nrows - 1 - Trunc.floorToInt ((y0 - g.yll) / g.csz)
+    omega
+
+end ClipAny
+
+open HydroVerif.C07 in
+/-- the monotonicity hypothesis of `clip_succeeds_monotone` holds in every ordered field with a floor, for a positive
+cell size (so that theorem is not vacuous, and covers the exact case) -/
+theorem floor_offset_monotone {α : Type} [Field α] [LinearOrder α] [IsStrictOrderedRing α] [FloorRing α]
+    (csz : α) (hcsz : 0 < csz) (a b o : α) (h : a ≤ b) :
+    (C07.Trunc.floorToInt ((a - o) / csz) : Int) ≤ C07.Trunc.floorToInt ((b - o) / csz) := by
+  show ⌊(a - o) / csz⌋ ≤ ⌊(b - o) / csz⌋
+  exact Int.floor_le_floor (div_le_div_of_nonneg_right (sub_le_sub_right h o) hcsz.le)
+
+/-! ## 7c. closure: what the constructors return is again in the domain of the theorems -/
+
+/-- **whatever `from_stream` accepts is a grid of the property's domain** — ANY header text (written by `save` or foreign:
+ULXMAP / XDIM variants, either byte order, extra or repeated keys), ANY data bytes: supported dtype, non-negative shape,
+`nrows × ncols` words of the dtype, numeric parent attributes, default bounds. Only the no-data scalar numpy builds from the
+header token is external (a word of the dtype that prints and reads back; automatic for the text `save` writes, see
+`header_roundtrip`). Hence every history theorem applies to a LOADED grid. -/
+theorem loaded_grid_is_grid {ν : Type} (io : NumIO ν) (d h : Str) (bytes : List UInt8) (g : Grid ν)
+    (hload : fromStream io d h (some bytes) = .ok g)
+    (hnd : g.nodata < wordBound g.dtype) (hp : NodataPrintable io g.dtype g.nodata) :
+    StateOK io g ∧ g.lo = none ∧ g.hi = none :=
+  fromStream_state io d h bytes g hload hnd hp
+
+/-- **whatever `clip` returns is a grid of the property's domain**, in ANY arithmetic (IEEE included), whatever the
+parent's name: a clipped grid can be saved, exported, cloned, edited and clipped again under the same theorems -/
+theorem clipped_grid_is_grid {α : Type} [Add α] [Sub α] [Mul α] [Div α] [OfNat α 1] [C07.Trunc α]
+    (io : NumIO α) (g : Grid α) (hg : GridOK io g) (hnc : 0 < g.ncols) (x0 y0 x1 y1 : α) (ng : Grid α)
+    (h : clip io g x0 y0 x1 y1 = .ok ng) : StateOK io ng ∧ ng.lo = none ∧ ng.hi = none :=
+  clip_state io g hg hnc x0 y0 x1 y1 ng h
+
+/-- **load (any accepted raster) → ANY history → save → load**: the second load reproduces the state after the history -/
+theorem history_from_files {ν : Type} (io : NumIO ν) (hio : IOok io) (d h : Str) (bytes : List UInt8) (g : Grid ν)
+    (hload : fromStream io d h (some bytes) = .ok g)
+    (hnd : g.nodata < wordBound g.dtype) (hp : NodataPrintable io g.dtype g.nodata)
+    (ops : List (Op ν)) (hops : ∀ op ∈ ops, OpWF io g.dtype op) (d2 : Str) :
+    ∃ h2 b2, save io (run io g ops).1 = .ok (h2, b2) ∧ ∃ g2, fromStream io d2 h2 (some b2) = .ok g2 ∧
+      g2.nrows = g.nrows ∧ g2.ncols = g.ncols ∧ g2.dtype = g.dtype ∧ g2.xll = (run io g ops).1.xll ∧
+      g2.yll = (run io g ops).1.yll ∧ g2.csz = (run io g ops).1.csz ∧ g2.nodata = (run io g ops).1.nodata ∧
+      g2.data = (run io g ops).1.data := by
+  obtain ⟨hs, _, _⟩ := loaded_grid_is_grid io d h bytes g hload hnd hp
+  obtain ⟨h2, b2, e1, g2, e2, _, _, a3, a4, a5, _, a7, a8, a9, a10, a11⟩ := save_load_after_history io hio g hs ops hops d2
+  exact ⟨h2, b2, e1, g2, e2, a9, a10, a11, a3, a4, a5, a7, a8⟩
+
+/-- **clip (any arithmetic) → ANY history on the clipped grid → save → load** -/
+theorem history_from_clip {α : Type} [Add α] [Sub α] [Mul α] [Div α] [OfNat α 1] [C07.Trunc α]
+    (io : NumIO α) (hio : IOok io) (g : Grid α) (hg : GridOK io g) (hnc : 0 < g.ncols) (x0 y0 x1 y1 : α) (ng : Grid α)
+    (h : clip io g x0 y0 x1 y1 = .ok ng) (ops : List (Op α)) (hops : ∀ op ∈ ops, OpWF io ng.dtype op) (d : Str) :
+    ∃ h2 b2, save io (run io ng ops).1 = .ok (h2, b2) ∧ ∃ g2, fromStream io d h2 (some b2) = .ok g2 ∧
+      g2.nrows = ng.nrows ∧ g2.ncols = ng.ncols ∧ g2.dtype = g.dtype ∧ g2.nodata = (run io ng ops).1.nodata ∧
+      g2.data = (run io ng ops).1.data := by
+  obtain ⟨hs, _, _⟩ := clipped_grid_is_grid io g hg hnc x0 y0 x1 y1 ng h
+  obtain ⟨_, _, _, _, _, _, _, _, _, _, hdt, _⟩ := clip_block_any_arithmetic io g hnc hg.rows hg.cols x0 y0 x1 y1 ng h
+  obtain ⟨h2, b2, e1, g2, e2, _, _, _, _, _, _, a7, a8, a9, a10, a11⟩ := save_load_after_history io hio ng hs ops hops d
+  exact ⟨h2, b2, e1, g2, e2, a9, a10, a11.trans hdt, a7, a8⟩
+
 /-! ## 8. the hypotheses are satisfiable; sample evaluations -/
 
 section Examples
@@ -656,7 +1063,7 @@ example : ∀ e ∈ ([.item 4 9007199254740993, .fill 7, .data [[1, 2, 3], [4, 5
   · exact ⟨by decide, fun h => absurd h (by decide)⟩
 
 example : GridOK ioToy g1 :=
-  ⟨⟨by decide, by decide, by decide, by decide, fun a v h => by simp [lookup, g1, g0] at h,
+  ⟨⟨by decide, by decide, by decide, by decide, fun a _ v h => by simp [lookup, g1, g0] at h,
     fun _ => ⟨by decide, by decide, 2143289344, by decide, by decide⟩⟩, by decide, by decide, by decide⟩
 
 
@@ -693,6 +1100,108 @@ example : 0 < gq.csz ∧ 0 < gq.ncols ∧ (gq.data.length : Int) = gq.nrows ∧ 
   refine ⟨by norm_num [gq], by decide, by decide, by decide, ?_, ?_, by norm_num, by norm_num⟩ <;>
     norm_num [InExtent, geom, gq]
 
+/-! ### the state machine: a history with accepted and rejected calls on `g0` (2 × 3, int64) -/
+
+example : StateOK ioToy g0 := stateOK_of_default ioToy g0 g0_ok ⟨rfl, rfl⟩
+
+set_option maxRecDepth 8000 in
+/-- which of these calls are rejected, and the state at the end: bounds 3 and 1 (the rejected `maxdata` stored its
+bound), data clipped by the last accepted assignment to `[1, 1]`… the invariant holds all along (`mutators_keep_invariant`) -/
+example : (run ioToy g0 opsEx).2 = [some .wrongCount, none, some .badIndex, none, some .badNodata, none, some .badBounds,
+      some .wrongCount, some .wrongCount, none, none, some .badNodata] ∧
+    (run ioToy g0 opsEx).1.nodata = 7 ∧ (run ioToy g0 opsEx).1.lo = some 3 ∧ (run ioToy g0 opsEx).1.hi = some 1 ∧
+    (run ioToy g0 opsEx).1.data = [[1, 1, 1], [1, 1, 1]] := by
+  decide
+
+example : StateOK ioToy (run ioToy g0 opsEx).1 ∧ SameShape g0 (run ioToy g0 opsEx).1 :=
+  ⟨(mutators_keep_invariant ioToy g0 (stateOK_of_default ioToy g0 g0_ok ⟨rfl, rfl⟩) opsEx opsEx_wf).1,
+   (mutators_keep_invariant ioToy g0 (stateOK_of_default ioToy g0 g0_ok ⟨rfl, rfl⟩) opsEx opsEx_wf).2.1⟩
+
+/-- … and the files written at the end of that history load back to the state at the end -/
+example : ∃ h b g2, save ioToy (run ioToy g0 opsEx).1 = .ok (h, b) ∧ fromStream ioToy [] h (some b) = .ok g2 ∧
+    g2.data = (run ioToy g0 opsEx).1.data ∧ g2.nodata = (run ioToy g0 opsEx).1.nodata := by
+  obtain ⟨h, b, hs, g2, hl, _, _, _, _, _, _, a7, a8, _⟩ :=
+    save_load_after_history ioToy ioToy_ok g0 (stateOK_of_default ioToy g0 g0_ok ⟨rfl, rfl⟩) opsEx opsEx_wf []
+  exact ⟨h, b, g2, hs, hl, a8, a7⟩
+
+/-- the two kinds of rejected state: unchanged, and "the new bound was stored" -/
+example : (step ioToy g0 (.edit (.data [[1, 2]]))).2 = some .wrongCount ∧
+    (step ioToy g0 (.edit (.data [[1, 2]]))).1.data = g0.data ∧
+    (step ioToy { g0 with lo := some 3 } (.maxdata (.int 1))).2 = some .badBounds ∧
+    (step ioToy { g0 with lo := some 3 } (.maxdata (.int 1))).1.hi = some 1 := by
+  decide
+
+/-- float bounds: 1.0 lies inside [-1.0, 2.0]; a NaN passes any bounds; a bound set to +inf is no bound -/
+example : AboveLo ⟨.float, 4⟩ 0xbf800000 0x3f800000 ∧ BelowHi ⟨.float, 4⟩ 0x40000000 0x3f800000 ∧
+    AboveLo ⟨.float, 4⟩ 0x40000000 0x7fc00123 ∧ BelowHi ⟨.float, 2⟩ 0x7c00 0x7bff ∧
+    BoundsOK ⟨.float, 4⟩ (some 0xbf800000) (some 0x40000000) ∧
+    clipWord ⟨.float, 4⟩ (some 0xbf800000) (some 0x40000000) 0x40400000 = 0x40000000 ∧
+    clipWord ⟨.float, 4⟩ (some 0xbf800000) (some 0x40000000) 0xc0400000 = 0xbf800000 := by
+  refine ⟨by simp only [AboveLo]; decide, by simp only [BelowHi]; decide, by simp only [AboveLo]; decide,
+    by simp only [BelowHi]; decide, ?_, by decide, by decide⟩
+  intro _
+  exact ⟨fun l h => by cases h; decide, fun l h => by cases h; decide⟩
+
+/-- clone independence with a rejected call: the wrong-shaped assignment rebinds nothing -/
+example : (SOp.setData [[1, 2, 3]]).apply [[[1, 2], [3, 4]]] ⟨0⟩ = ([[[1, 2], [3, 4]]], ⟨0⟩) ∧
+    ((SOp.setData [[5, 6], [7, 8]]).apply [[[1, 2], [3, 4]]] ⟨0⟩).2 = ⟨1⟩ := by decide
+
+/-- catchment history: delineation with inlets, a failed call, a delineation without inlets — outlet, inlets (none) and
+areas are those of the last call -/
+example : (crun c0Ex copsEx).outlet = some 4 ∧ (crun c0Ex copsEx).inlets = none ∧ (crun c0Ex copsEx).area = some [4] ∧
+    (crun c0Ex (copsEx.take 2)).area = none := by decide
+
+example : ∃ d c', catchToDict ioToy (crun c0Ex copsEx) = .ok d ∧ catchFromDict ioToy d = .ok c' ∧
+    c'.outlet = some 4 ∧ c'.inlets = none ∧ c'.area = some [4] ∧ c'.filled = some [4, 0] := by
+  obtain ⟨_, _, _, h⟩ := catchment_history ioToy copsEx c0Ex rfl rfl (by decide) (by decide) (by decide)
+  obtain ⟨d, c', h1, h2, _, b2, b3, b4, b5, _⟩ := h [4] (by decide)
+  exact ⟨d, c', h1, h2, b2.trans (by decide), b3.trans (by decide), b4.trans (by decide), b5.trans (by decide)⟩
+
+/-- file names: `a.b.bil` round-trips through either file; `xbil` is accepted by `save` and cannot be found again -/
+example : ∃ fs', saveFS ioToy [] "d".toList "a.b.bil".toList g0 = .ok fs' ∧
+    ∃ g', fromHeaderFS ioToy fs' "d".toList "a.b.hdr".toList = .ok g' ∧ g'.data = g0.data := by
+  obtain ⟨fs', h1, h2⟩ := save_fromHeader_files ioToy ioToy_ok [] "d".toList "a.b".toList (by decide) g0 g0_ok
+  obtain ⟨g', h3, _, _, _, _, _, _, _, h4⟩ := h2 "a.b.hdr".toList (Or.inr rfl)
+  exact ⟨fs', h1, g', h3, h4⟩
+
+example : ∃ fs', saveFS ioToy [] "d".toList "xbil".toList g0 = .ok fs' ∧
+    fromHeaderFS ioToy fs' "d".toList "xbil".toList = .error .missingFile := by
+  obtain ⟨h, b, hs, _⟩ := save_load ioToy ioToy_ok g0 g0_ok []
+  exact save_name_guard_too_weak ioToy g0 h b hs "d".toList "xbil".toList (by decide) (by decide) (by decide)
+
+/-- `from_dict` with only the two mandatory keys; with every key -/
+example : (fromDictP ioToy dMin).toOption.map (fun g => (g.nrows, g.ncols, g.dtype, g.data)) =
+      some (2, 2, ⟨.float, 8⟩, [[0, 0], [0, 0]]) ∧
+    fromDictP ioToy (toDict ioToy g0).full = fromDict ioToy (toDict ioToy g0) :=
+  ⟨by decide, fromDictP_full ioToy _⟩
+
+/-- closure: the grid loaded from the files of `g0` is in the invariant, and so is every state reached from it -/
+example : ∃ h b g, save ioToy g0 = .ok (h, b) ∧ fromStream ioToy [] h (some b) = .ok g ∧ StateOK ioToy g ∧
+    StateOK ioToy (run ioToy g opsEx).1 := by
+  obtain ⟨h, b, hs, g, hl, _, _, _, _, _, hdt, hnd, _⟩ := save_load ioToy ioToy_ok g0 g0_ok []
+  have hst := (loaded_grid_is_grid ioToy [] h b g hl (by rw [hdt, hnd]; decide)
+    (by rw [hdt]; exact fun hk => absurd hk (by decide))).1
+  exact ⟨h, b, g, hs, hl, hst, (mutators_keep_invariant ioToy g hst opsEx (by rw [hdt]; exact opsEx_wf)).1⟩
+
 end Examples
+
+/-! ### clip: the hypotheses of the any-arithmetic theorems are met wherever those of the exact theorem are -/
+
+section ClipAnyExamples
+open HydroVerif.C07
+variable {α : Type} [Field α] [LinearOrder α] [IsStrictOrderedRing α] [FloorRing α]
+
+example (io : NumIO α) (g : Grid α) (hcsz : 0 < g.csz) (hnc : 0 < g.ncols)
+    (hr : (g.data.length : Int) = g.nrows) (hc : ∀ r ∈ g.data, (r.length : Int) = g.ncols)
+    {x0 y0 x1 y1 : α} (h0 : InExtent (geom g) x0 y0) (h1 : InExtent (geom g) x1 y1) (hx : x0 ≤ x1) (hy : y0 ≤ y1) :
+    ∃ ng, clip io g x0 y0 x1 y1 = .ok ng ∧ 0 < ng.nrows ∧ 0 < ng.ncols ∧ ng.lo = none := by
+  obtain ⟨v0, _⟩ := coord2cell_of_inExtent (g := geom g) hcsz h0
+  obtain ⟨v1, _⟩ := coord2cell_of_inExtent (g := geom g) hcsz h1
+  obtain ⟨ng, h, p1, p2⟩ := clip_succeeds_monotone io g hnc hr hc (fun a b o hab => floor_offset_monotone g.csz hcsz a b o hab)
+    x0 y0 x1 y1 hx hy v0 v1
+  obtain ⟨_, _, _, _, _, _, _, _, _, _, _, _, _, hlo, _⟩ := clip_block_any_arithmetic io g hnc hr hc x0 y0 x1 y1 ng h
+  exact ⟨ng, h, p1, p2, hlo⟩
+
+end ClipAnyExamples
 
 end HydroVerif.C13
